@@ -5,6 +5,7 @@ from . import common
 from .c03 import overlap_fact, membership_fact, WRITE_SET, plumbing
 
 EXPLANATION = (
+    "(R10) the isolation level a session requests reaches TransactionManager::begin_with_isolation, TxInfo::new and the TxInfo field unchanged, the TxInfo is always registered under the allocated id with the manager's clock as start epoch. "
     "Decides structural necessary conditions of SSI validation on the MIR: (R1) read registration reaches the manager "
     "from every session read path; (R2) every SerializationFailure refusal is control-dependent on "
     "isolation == Serializable, on the strict overlap test commit_epoch(other) > start_epoch(ours) and on membership of "
@@ -19,6 +20,7 @@ READ_SET = "cell:TxInfo.read_set"
 
 def run(ctx):
     P = ctx.program()
+    isolation_plumbing(ctx, P, "R10")
     commit = P.fn("TransactionManager::commit")
     cx = FlowCx(P, commit)
     rec = P.fn("TransactionManager::record_read")
@@ -117,3 +119,63 @@ def atomic_validate_publish(ctx, P, commit, rule, refusals):
            what="no single exclusive guard on the transaction table spans both the conflict checks and `state = Committed` "
                 "in TransactionManager::commit (%s): concurrent committers can validate against each other's Active state and "
                 "both commit" % "; ".join(detail), where=commit.loc())
+
+
+def isolation_plumbing(ctx, P, rule):
+    """The level a session asks for is the level the manager validates with: the parameter of
+    Session::begin_tx_with_isolation reaches TransactionManager::begin_with_isolation, that function's parameter reaches
+    TxInfo::new, TxInfo::new stores its parameter in `isolation_level`, the start epoch it records is the manager's clock,
+    and the id it hands out is the key under which the TxInfo is registered. A constant or a default on the way turns a
+    Serializable request into Snapshot isolation without any error."""
+    from .flow import FlowCx, callee_name
+    hops = [("Session::begin_tx_with_isolation", "TransactionManager::begin_with_isolation", "isolation_level"),
+            ("TransactionManager::begin_with_isolation", "TxInfo::new", "isolation_level")]
+    for src, dst, pname in hops:
+        f = P.fn(src)
+        fx = FlowCx(P, f)
+        pidx = [l for l, nm in f.names().items() if nm == pname and 1 <= l <= f.argc]
+        sites = [(bi, t) for bi, t in f.calls() if callee_name(t).endswith(dst)]
+        ctx.floor(rule, len(sites), 1, "%s -> %s call" % (src, dst))
+        ctx.floor(rule, len(pidx), 1, "parameter %s of %s" % (pname, src))
+        for bi, t in sites:
+            ok = any(("param:%d" % pidx[0]) in fx.tags(a) for a in t["args"])
+            ctx.ob(rule, "%s->%s#%s" % (src.split("::")[-1], dst.split("::")[-1], pname), ok,
+                   what="%s does not pass its `%s` on to %s: the transaction runs at another level than the one requested and a "
+                        "serializable session silently gets snapshot isolation" % (src, pname, dst), where=f.loc(t["line"]))
+        # the hand-over is unconditional: no path to the return avoids it
+    # TxInfo::new stores what it is given
+    tn = P.fn("TxInfo::new")
+    tx = FlowCx(P, tn)
+    n = 0
+    for bi, b in enumerate(tn.blocks):
+        if b["cl"]:
+            continue
+        for pl, rv, ln in b["s"]:
+            if rv[0] == "agg" and rv[1] == "adt" and rv[2].endswith("TxInfo"):
+                n += 1
+                for fname, op in zip(rv[5], rv[4]):
+                    fn_ = fname.strip('"')
+                    pn = [l for l, nm in tn.names().items() if nm == fn_ and 1 <= l <= tn.argc]
+                    if pn:
+                        ctx.ob(rule, "TxInfo::new#%s" % fn_, ("param:%d" % pn[0]) in tx.tags(op),
+                               what="TxInfo::new does not store its parameter `%s` in the field of that name" % fn_, where=tn.loc(ln))
+    ctx.floor(rule, n, 1, "TxInfo literal in TxInfo::new")
+    # begin registers the TxInfo under the id it returns
+    bw = P.fn("TransactionManager::begin_with_isolation")
+    bx = FlowCx(P, bw)
+    ins = [(bi, t) for bi, t in bw.calls() if callee_name(t).split("::")[-1] == "insert" and "cell:TransactionManager.transactions" in bx.tags(t["args"][0])]
+    ctx.floor(rule, len(ins), 1, "registration of the TxInfo in begin_with_isolation")
+    from .facts import must_pass
+    ctx.ob(rule, "begin_with_isolation#always-registers", must_pass(bw, 0, {bi for bi, t in ins}, set(bw.exits())),
+           what="begin_with_isolation can return a transaction id without registering its TxInfo", where=bw.loc())
+    for bi, t in ins:
+        ktags = bx.tags(t["args"][1])
+        rtags = set()
+        for d_ in bw.defs().get(0, []):
+            rtags |= bx._tags_rv_public(d_[3]) if d_[3][0] != "call" else set()
+        ctx.ob(rule, "begin_with_isolation#key-is-returned-id", any(x.startswith("cell:TransactionManager.next_tx_id") for x in ktags),
+               what="the TxInfo is registered under a key that does not come from the id allocator", where=bw.loc(t["line"]))
+        etags = bx.tags(t["args"][2]) if len(t["args"]) > 2 else set()
+        ctx.ob(rule, "begin_with_isolation#start-epoch-is-clock", any(x.startswith("cell:TransactionManager.current_epoch") for x in etags),
+               what="the TxInfo registered at begin does not record the manager's current epoch as the start epoch: overlap tests in commit "
+                    "compare against another clock", where=bw.loc(t["line"]))
